@@ -9,8 +9,8 @@ func init() {
 			"R3.3 in every operator printer each operand (derived from the parse method: the left parameter, or a sub-parse above the lowest level) is written inside parentheses controlled by a pure comparison of the operand's level with the node's level, which is evaluated over ALL orderings of levels (finite) against the requirement 'left: child < own; right operand of an infix node: child <= own; prefix operand: child < own', with '(' and ')' under the same condition and enclosing the operand. " +
 			"R3.4 no two lexemes that the printers can write next to each other (FIRST/LAST sets over all node types that can fill each slot) fuse into another token, except where the writer's separator guard, folded on that byte pair, inserts a space (the defect this rule found, '-' '-x' printed as '--x', is repaired by a fix: commit); " +
 			"R3.5 the printer writes the tokens of every parse path in the order the parser consumed them, so re-parsing meets the same token sequence. " +
-			"A pass means these necessary conditions hold for every path/ordering; it does NOT show shape equality after re-parse.",
-		notDecided: []string{"equality of tree shapes after print+parse (needs running both)", "statement-start ambiguities of programmatic trees ('{' / 'function' leading an expression statement)", "callee/object operands looser than call level (outside the property's quantifier)"},
+			"A pass means these necessary conditions hold for every path/ordering; it does NOT show shape equality after re-parse. R3.6 the first lexeme of an expression statement: every expression node type that writes '{' or 'function' first is parenthesised by the statement printer (the guarding predicate read as a type switch and checked by structural induction against the printer event trees), and no parse method hands an inner node through after consuming other tokens.",
+		notDecided: []string{"equality of tree shapes after print+parse (needs running both)", "a LetExpression as an expression statement (known finding of R3.6: parentheses cannot repair it)", "callee/object operands looser than call level (outside the property's quantifier)"},
 	})
 }
 
@@ -36,4 +36,7 @@ func runC03(c *Ctx) {
 	c.rule("R3.5", "token-order agreement: the printer writes exactly the tokens each parse path consumed, in that order (= R1.1)")
 	c.floor(25)
 	ruleTokenOrder(c, t, g, "order")
+	c.rule("R3.6", "the first lexeme of an expression statement: an expression whose text begins with a lexeme the statement dispatcher routes elsewhere ({, function) is parenthesised by the statement printer — the guarding predicate answers true for every node type that writes such a lexeme first and follows every node type into the operand it prints first — and no parse method returns an inner node after consuming other tokens (the parentheses of the source stay in the tree)")
+	c.floor(8)
+	ruleStatementStart(c, t, g)
 }
